@@ -133,10 +133,10 @@ def _seed_packets(rng, n):
 def gen_cases(rng, tier):
     big = tier == "thorough"
     cases = []
-    for _ in range(16000 if not big else 800000):
+    for _ in range(16000 if not big else 400000):
         ent, data, tag = _whole(rng)
         cases.append("%s %s" % (ent, hx(_damage(rng, data))))
-    for _ in range(12000 if not big else 600000):
+    for _ in range(12000 if not big else 300000):
         ent, data, tag = _single(rng)
         cases.append("%s %s" % (ent, hx(data)))
     for ent, data in _seed_packets(rng, 40 if not big else 300):
